@@ -273,7 +273,7 @@ type c10Gen struct {
 	kids  map[string][2]string // full address of a posted entry -> (parent address, child hash) it was posted with
 }
 
-var c10OddStrings = []string{"a", "b", "x/y", "/", "é", "日本", " ", "q\"uote", "back\\slash", "<tag>&", "line\nfeed", "tab\t", "\x01", "\x7f", "\b\f", "\u2028", "\u2029x", "ab", "a\x00"}
+var c10OddStrings = []string{"a", "b", "x/y", "/", "é", "日本", " ", "q\"uote", "back\\slash", "<tag>&", "line\nfeed", "tab\t", "\x01", "\x7f", "\b\f", "\u2028", "\u2029x", "ab", "a\x00", "100%", "archive%202026", "%s%d", "%%v"}
 
 func (g *c10Gen) aclJSON(kind, tn string, who []int) string {
 	m := map[string]string{}
